@@ -426,12 +426,25 @@ pub fn run() {
     for (what, line) in loop_bad {
         ctx.violation("loop/termination", what, line);
     }
+    // ---- (6) conformance of the graph with unforced executions, incl. resets at every edge ----
+    let (conf_steps, conf_resets, conf_runs, conf_bad) = conformance(&graph);
+    let mut per_key: BTreeMap<String, u32> = BTreeMap::new();
+    for (k, w, l) in conf_bad {
+        let n = per_key.entry(k.clone()).or_default();
+        *n += 1;
+        if *n <= 3 {
+            ctx.violation(k, w, l);
+        }
+    }
+    ctx.set("conformance_runs", conf_runs);
+    ctx.set("conformance_transitions_checked_against_graph", conf_steps);
+    ctx.set("conformance_resets_mid_instruction", conf_resets);
     ctx.set("states", states);
     ctx.set("transitions", transitions);
-    ctx.set("traces_validated_against_impl", calls);
+    ctx.set("traces_validated_against_impl", calls + conf_runs);
     ctx.set("evaluations", calls);
     ctx.set("distinct_nontrivial", transitions);
-    ctx.set("rule", "state = (micro address, IR); every state reachable from reset is stepped through the real trigger_clock_edge() under every input combination (16 flag states x 2 carry-outs x 3 ALU conditions x pending interrupt; x all 256 bytes at IR-loading words); transitions = distinct labelled successor edges, evaluations = real clock-edge calls");
+    ctx.set("rule", "state = (micro address, IR); every state reachable from reset is stepped through the real trigger_clock_edge() under every input combination (16 flag states x 2 carry-outs x 3 ALU conditions x pending interrupt; x all 256 bytes at IR-loading words); transitions = distinct labelled successor edges, evaluations = real clock-edge calls; conformance: unforced executions of every first byte / every second byte (with and without a pending enabled interrupt, cpu and master reset at every edge) may only take edges of that graph");
     ctx.set("exhaustive", true);
     ctx.set("bounds", "fix-point; full input product at every state (both tiers)");
     ctx.set("bfs_levels", levels);
@@ -459,6 +472,157 @@ pub fn run() {
     ctx.assume("the hook verif_force_control sets exactly the sequencer-visible latches; the successor is computed by the shipped trigger_clock_edge()");
     ctx.assume("defined first/second byte sets are REF-ISA's (frozen from the control store)");
     ctx.finish();
+}
+
+/// (6) Conformance of the extracted graph with *unforced* executions: every first byte (and every
+/// second byte after 0xF0-0xFF) is executed on a poked reset machine, with and without a pending
+/// enabled key interrupt; every observed transition (addr, IR) -> (addr', IR') must be an edge of the
+/// graph. At every edge of those runs the machine is also cloned and reset (cpu / master): the control
+/// state must be the power-on one and the following transitions must again be edges of the graph.
+/// A latch outside (addr, IR, inputs) that steers the sequencer shows up here.
+fn conformance(graph: &HashMap<Node, Vec<Edge>>) -> (u64, u64, u64, Vec<(String, String, String)>) {
+    use crate::isa_sweep::{self as sw, Case};
+    let power_on: Node = {
+        let f = mach::free();
+        (f.verif_micro_addr() as u16, f.verif_ir())
+    };
+    let mut cases: Vec<(u8, u8, bool, u8)> = vec![];
+    for b in 0..=255u8 {
+        let seconds: Vec<u8> = if b >= 0xF0 { (0..=255).collect() } else { vec![0x12] };
+        for s in seconds {
+            for int in [false, true] {
+                for regs in 0..2u8 {
+                    if b >= 0xF0 && regs == 1 && s % 8 != 0 {
+                        continue;
+                    }
+                    cases.push((b, s, int, regs));
+                }
+            }
+        }
+    }
+    let res = mc::par_ranges(cases.len(), 64, |rg| {
+        let mut checked = 0u64;
+        let mut resets = 0u64;
+        let mut bad: Vec<(String, String, String)> = vec![];
+        let hal = |m: &Machine| -> u8 {
+            match m.state() {
+                State::Running => 0,
+                State::Stopped => 1,
+                State::ErrorStopped => 2,
+            }
+        };
+        // one observed step; false = not an edge of the graph
+        let step_ok = |m: &mut Machine, checked: &mut u64| -> Result<bool, String> {
+            let from: Node = (m.verif_micro_addr() as u16, m.verif_ir());
+            let waiting = m.verif_pending().3;
+            m.raw_mut().trigger_clock_edge();
+            let to: Node = (m.verif_micro_addr() as u16, m.verif_ir());
+            *checked += 1;
+            // a memory wait state: the edge only consumes the wait latch, the word stays current
+            if waiting {
+                return if to == from { Ok(true) } else { Err(format!("a wait edge changed the control state addr={:#05x} ir={:#04x} -> addr={:#05x} ir={:#04x}", from.0, from.1, to.0, to.1)) };
+            }
+            // error stops raised by the SP/PC supervision are C05's subject and kept out of the graph
+            if m.state() == State::ErrorStopped {
+                return Ok(true);
+            }
+            match graph.get(&from) {
+                None => Err(format!("control state addr={:#05x} ir={:#04x} of a real execution is not a state of the extracted graph", from.0, from.1)),
+                Some(es) => {
+                    if es.iter().any(|e| e.to == to && e.halted == hal(m)) {
+                        Ok(true)
+                    } else {
+                        Err(format!("real execution steps addr={:#05x} ir={:#04x} -> addr={:#05x} ir={:#04x} (state code {}), which is not an edge of the graph extracted under every input combination: the sequencer depends on something besides (address, IR, flags, ALU condition, bus byte, pending interrupt)", from.0, from.1, to.0, to.1, hal(m)))
+                    }
+                }
+            }
+        };
+        for i in rg {
+            let (b, s, int, regs) = cases[i];
+            let line = format!("conf first={:#04x} second={:#04x} int={} regs={}", b, s, int, regs);
+            mc::watch::progress(|| line.clone());
+            let r = mc::catch(|| {
+                let mut out: Vec<(String, String)> = vec![];
+                let mut ram = [0u8; 240];
+                for (k, x) in ram.iter_mut().enumerate() {
+                    *x = (k as u8).wrapping_mul(11) ^ 0x21;
+                }
+                sw::place(&mut ram, 0x10, &[b, s, 0x30, 0x02, 0x02, 0x02, 0x02]);
+                let cpu = if regs == 0 {
+                    refmodel::isa::Cpu { r: [0x25, 0x03, 0x90], pc: 0x10, fr: if int { 0x08 } else { 0 }, sp: 0xC0 }
+                } else {
+                    refmodel::isa::Cpu { r: [0x00, 0xFF, 0x80], pc: 0x10, fr: if int { 0x0F } else { 0x07 }, sp: 0xC0 }
+                };
+                let case = Case { cpu, scratch: (0, 0), ram, inputs: [0; 4], di1: 0 };
+                let mut m = case.machine();
+                if int {
+                    m.raw_mut().bus_mut().write(0xF9, 0x01);
+                    m.trigger_key_interrupt();
+                }
+                let mut c = 0u64;
+                let mut rs = 0u64;
+                for t in 0..48 {
+                    if m.state() != State::Running {
+                        break;
+                    }
+                    if t < 26 {
+                        for master in [false, true] {
+                            let mut x = m.clone();
+                            if master {
+                                x.master_reset()
+                            } else {
+                                x.cpu_reset()
+                            }
+                            rs += 1;
+                            let st: Node = (x.verif_micro_addr() as u16, x.verif_ir());
+                            if st != power_on {
+                                out.push(("reset/control-state-not-power-on".into(), format!("after a {} reset at edge {} the control state is addr={:#05x} ir={:#04x}, power-on is addr={:#05x} ir={:#04x}", if master { "master" } else { "cpu" }, t, st.0, st.1, power_on.0, power_on.1)));
+                                continue;
+                            }
+                            for _ in 0..6 {
+                                if x.state() != State::Running {
+                                    break;
+                                }
+                                if let Err(w) = step_ok(&mut x, &mut c) {
+                                    out.push(("conformance/after-reset".into(), format!("after a {} reset at edge {}: {}", if master { "master" } else { "cpu" }, t, w)));
+                                    break;
+                                }
+                            }
+                        }
+                    }
+                    if let Err(w) = step_ok(&mut m, &mut c) {
+                        out.push(("conformance/transition-not-in-graph".into(), format!("edge {}: {}", t, w)));
+                        break;
+                    }
+                }
+                (out, c, rs)
+            });
+            match r {
+                Ok((out, c, rs)) => {
+                    checked += c;
+                    resets += rs;
+                    for (k, w) in out {
+                        if bad.len() < 6 {
+                            bad.push((k, format!("[{}] {}", line, w), line.clone()));
+                        }
+                    }
+                }
+                Err(p) => {
+                    if bad.len() < 6 {
+                        bad.push((format!("panic/{}", p.file()), format!("[{}] panic at {}: {}", line, p.site(), p.msg), line.clone()));
+                    }
+                }
+            }
+        }
+        (checked, resets, bad)
+    });
+    let mut out = (0u64, 0u64, cases.len() as u64, vec![]);
+    for (c, r, b) in res {
+        out.0 += c;
+        out.1 += r;
+        out.3.extend(b);
+    }
+    out
 }
 
 fn muldiv_termination() -> (u32, u32, Vec<(String, String)>) {
